@@ -51,6 +51,10 @@ CLAIMED = {
    text="D1: cargo check --offline --no-default-features --features <set> succeeds for every feature set of wow_login_messages, wow_world_base and wow_world_messages (quick: 21 pairwise-covering sets; thorough: full powersets). D2: all 9,622 cfg attributes in the 2,265 library source files sit at item level (never on a statement, expression, field, variant, arm or parameter) and no item name is defined twice in a module under different cfgs, so a codec present in two configurations is the same token stream in both.",
    note="rustc is the deciding analysis for D1; D2 is what makes 'same codecs in every configuration' a structural fact; behaviour under a configuration is otherwise covered by the per-property checks on the union configuration",
    ref="§3 C19"),
+ "C20": dict(level="other", tech="symbolic evaluation of the straight-line geometry bodies from typed HIR into exact algebraic normal forms (sympy polynomial/trig identity) + argument-role and dispatch rules on the macro-generated call sites",
+   text="is_within_square, distance_between, distance_2d and is_within_distance are evaluated symbolically over the reals and must be identical, as functions of all inputs, to the documented definition (offset rotated into the box frame by a proper rotation of the yaw; three inclusive per-axis bounds of half-extent + 2; Euclidean norm; strict circle test). AreaTrigger::contains and verify_trigger of the three expansions must pass player/trigger/size arguments in their roles, conjoin map equality and dispatch NotFound / NotInsideTrigger / Success on lookup-miss / !contains / contains. Identity of normal forms covers every yaw, aspect ratio and position at once, including the faces and corners of rotated boxes that no sampled point set pins down.",
+   note="real-number semantics: f32 rounding and NaN are not modelled; the trigger tables' contents are data and are not checked; one genuine defect (non-rotation in is_within_square) was repaired by a fix: commit",
+   ref="§3 C20"),
 }
 NA_REASONS = {}
 DEFAULT_NA = "check under construction in this round (see DESIGN.md); will be claimed once its rule module is committed"
